@@ -396,6 +396,7 @@ class TheJoker:
         mcmc_init : dict
 
         """
+        import astropy.units as u
         import pymc as pm
         import pytensor.tensor as pt
 
@@ -439,9 +440,19 @@ class TheJoker:
 
         p = self.prior.pars
 
+        # Like the rejection sampler, the model below works in internal units:
+        # period in days (x = t - t_ref is in days), angles in radians, and
+        # velocities in the units of the data
+        rv_unit = data.rv.unit
+        P = xu.to_unit(p["P"], u.day)
+        omega = xu.to_unit(p["omega"], u.radian)
+        M0 = xu.to_unit(p["M0"], u.radian)
+        K = xu.to_unit(p["K"], rv_unit)
+        s = xu.to_unit(p["s"], rv_unit)
+
         if "t_peri" not in model.named_vars:
             with model:
-                pm.Deterministic("t_peri", p["P"] * p["M0"] / (2 * np.pi))
+                pm.Deterministic("t_peri", P * M0 / (2 * np.pi))
 
         if "obs" in model.named_vars:
             return mcmc_init
@@ -449,9 +460,9 @@ class TheJoker:
         with model:
             # Set up the orbit model
             orbit = KeplerianOrbit(
-                period=p["P"],
+                period=P,
                 ecc=p["e"],
-                omega=p["omega"],
+                omega=omega,
                 t_periastron=model.named_vars["t_peri"],
             )
 
@@ -464,17 +475,21 @@ class TheJoker:
 
         with model:
             v_pars = (
-                [p["v0"]]
-                + [p[name] for name in offset_names]
-                + [p[name] for name in vtrend_names[1:]]
-            )  # skip v0
+                [xu.to_unit(p["v0"], rv_unit)]
+                + [xu.to_unit(p[name], rv_unit) for name in offset_names]
+                + [
+                    xu.to_unit(p[name], rv_unit / u.day**i)
+                    for i, name in enumerate(vtrend_names)
+                    if i > 0  # skip v0
+                ]
+            )
             v_trend_vec = pt.stack(v_pars, axis=0)
             trend = pt.dot(M, v_trend_vec)
 
-            rv_model = orbit.get_radial_velocity(x, K=p["K"]) + trend
+            rv_model = orbit.get_radial_velocity(x, K=K) + trend
             pm.Deterministic("model_rv", rv_model)
 
-            err = pt.sqrt(err**2 + p["s"] ** 2)
+            err = pt.sqrt(err**2 + s**2)
             pm.Normal("obs", mu=rv_model, sigma=err, observed=y)
 
             pm.Deterministic("logp", model.logp())
